@@ -432,6 +432,11 @@ func TypeSchema(r *rand.Rand, o TypeOpts) *model.Schema {
 					if pts := s.PossibleTypes(fi.Type.Name); len(pts) > 0 {
 						f.Type = model.Named(pts[r.Intn(len(pts))])
 					}
+				} else if known && (k == model.Interface || k == model.Union) && (fi.Type.List || fi.Type.NonNull) && r.Intn(2) == 0 {
+					// the same narrowing below list and non-null wrappers: [Node] -> [Leaf], [[Node!]]! -> [[Leaf!]]!
+					if pts := s.PossibleTypes(fi.Type.Base()); len(pts) > 0 {
+						f.Type = narrowBase(fi.Type, pts[r.Intn(len(pts))])
+					}
 				} else if !fi.Type.NonNull && r.Intn(3) == 0 {
 					f.Type = model.NonNullOf(fi.Type)
 				}
@@ -557,4 +562,15 @@ func PadDescriptions(r *rand.Rand, s *model.Schema) int {
 		args(d.Args)
 	}
 	return n
+}
+
+// narrowBase rebuilds t with its innermost named type replaced.
+func narrowBase(t *model.TypeRef, to string) *model.TypeRef {
+	switch {
+	case t.NonNull:
+		return model.NonNullOf(narrowBase(t.Of, to))
+	case t.List:
+		return model.ListOf(narrowBase(t.Of, to))
+	}
+	return model.Named(to)
 }
